@@ -102,9 +102,10 @@ def run(tier):
                 tot[k] = tot.get(k, 0) + n
             samples += o["samples"][:1]
     # ---- option independence (python only), on the same decoded data
-    opt_names = [names[i] for i in (chosen[:24] if q else chosen)]
+    opt_names = list(names)      # option independence: every zone, targeted instants (transitions, year boundaries)
     zic_segs = {}
-    items = [{"mode": "options", "zone_infos": sh, "segments": zic_segs, "start_year": 2000, "until_year": 2050}
+    items = [{"mode": "options", "zone_infos": sh, "segments": zic_segs, "start_year": 2000, "until_year": 2050,
+              "grid_s": (86400 * 61 + 3600 * 5) if q else (86400 * 5 + 3600 * 5), "local_step": 3 if q else 1}
              for sh in c03lib.shard_dict({n: infos[n] for n in opt_names}, N)]
     m = c03lib.run_py_workers(items, work / "opts")
     for f in m["failed"]:
@@ -123,8 +124,9 @@ def run(tier):
                 "year boundary +-1 s, a %d s grid; local date-times: every %d min within +-200 min of each transition's wall-clock "
                 "image. The C++ side answers a query file (getUtcOffset/getDeltaOffset/getAbbrev, ZonedDateTime::forComponents); "
                 "compared as (total, dst, abbreviation) and as resolved instants (local - python offset == C++ epoch seconds). "
-                "Options: the 8 combinations {13,14} x {optimized,basic finder} x {in-place,basic selector} against the default on "
-                "instants and local times. distinct = distinct (zone, transition) pairs." % (
+                "Options: all 387 zones, the 8 combinations {13,14} x {optimized,basic finder} x {in-place,basic selector} against "
+                "the default at every transition +-1 s, 11 offsets around every year boundary (where the 13- and 14-month windows "
+                "differ), a grid, and local times around transitions and New Year. distinct = distinct (zone, transition) pairs." % (
                     "60 seed-chosen zones" if q else "all 387 zones", grid_s, step),
         "samples": samples[:6],
         "counters": tot,
